@@ -145,7 +145,7 @@ theorem view_stable_get (v : Remote.Variant) (s s' : Remote.State) (p : Store.Pi
       · rename_i hc
         simp at hs; subst hs
         unfold canGet
-        simp only [Remote.upd, Remote.put]
+        simp only [Remote.upd]
         by_cases e : m = s.mach p
         · subst e
           by_cases e2 : ns' = ns ∧ k' = k
